@@ -34,6 +34,8 @@ MODEL_KINDS = ["OPF", "SupervisedOPF", "SemiSupervisedOPF", "KNNSupervisedOPF", 
 
 def classes_for(name):
     cl = list(axioms.domain_classes(name))
+    if name in axioms.DECORATED:
+        cl = cl + ["S0"]         # probability vectors with exact zeros (judged under the epsilon-shift convention)
     if name == "hassanat":
         cl = ["R"] + cl  # its closed form has an explicit branch for negative components
     return cl
@@ -85,6 +87,12 @@ def agree(name, got, x, y):
         if got != got or abs(got * got - ref2) > 1e-12:
             return "chord^2 = %r, closed form 2-2cos = %r" % (got * got if got == got else got, ref2)
         return None
+    if name in axioms.DECORATED and (0.0 in tuple(x) or 0.0 in tuple(y)):
+        # probability vectors may hold exact zeros, where the ratio / log forms are singular; the
+        # library's documented convention (utils.decorator.avoid_zero_division, EPSILON = 1e-20) is to
+        # evaluate the closed form on the vectors shifted by EPSILON - once
+        x = tuple(v + 1e-20 for v in x)
+        y = tuple(v + 1e-20 for v in y)
     ref = metrics_ref.REF[name](x, y)
     if got == ref:
         return None
